@@ -21,7 +21,7 @@ NL = 10
 
 def jobs(tier, seed):
     L = 4 if tier == 'quick' else 6
-    return [f"slice-{k}" for k in range(0, L + 1)] + ['display', 'contextualize', 'native']
+    return [f"slice-{k}" for k in range(0, L + 1)] + ['display', 'contextualize', 'marked', 'native']
 
 
 def input_value(ex, prog, input_ty, chars, line, column, offset, csl, cso, with_file=False):
@@ -241,6 +241,82 @@ def job_contextualize(prog, chk, tier):
     chk.res.bounds = {'text': 'concrete sample', 'numbers': 'line, column, context_start_line symbolic'}
 
 
+def job_marked(prog, chk, tier):
+    """contextualize with ReportData consistent with the text (the C17 invariant): exactly one line is marked, it carries the
+    number `line` and its text is the source line `line`.  Positions: every (context start, error offset) pair where the
+    context starts right after a top-level assignment and the error lies in the following assignment."""
+    fn = prog.find(CTX)
+    f = prog.inst[fn]
+    le_ty = prog.kind(f['locals'][1])[1]
+    kind_ty = prog.ty(le_ty)['adt']['variants'][0]['fields'][0]['ty']
+    rd_ty = prog.ty(kind_ty)['adt']['variants'][prog.variant_index(kind_ty, 'MatchingError')]['fields'][0]['ty']
+    long_members = ',\n'.join(f"    member-number-{i} INTEGER (0..{i}) OPTIONAL -- a comment that makes the line longer" for i in range(8))
+    texts = [
+        "Mod DEFINITIONS ::= BEGIN\n  A ::= INTEGER\n\n  B ::= SEQUENCE {\n    a BOOLEAN,\n    b NULL\n  }\nEND\n",
+        "Mod DEFINITIONS ::= BEGIN\nA ::= INTEGER\n\nB ::= SEQUENCE {\n" + long_members + "\n}\n\nC ::= BOOLEAN\nEND\n",
+        "Mod DEFINITIONS ::= BEGIN\r\nA ::= INTEGER\r\n\r\nB ::= CHOICE {\r\n" + long_members.replace('\n', '\r\n') + "\r\n}\r\nEND\r\n",
+    ]
+    column = z3.BitVec('column', 64)
+    chk.ex.max_path_steps = 2000000
+    for text in (texts if tier != 'quick' else texts[:2]):
+        b = text.encode()
+        # context starts: right after 'INTEGER' of assignment A (what reset_context records); error offsets: token starts inside B
+        cso = text.index('INTEGER') + len('INTEGER')
+        starts = [m.start() for m in __import__('re').finditer(r'\S+', text) if m.start() > cso and m.start() < text.rindex('}')]
+        if tier == 'quick':
+            starts = starts[::max(1, len(starts) // 6)]
+        for off in starts:
+            csl = 1 + b[:cso].count(b'\n')
+            line = 1 + b[:off].count(b'\n')
+
+            def run(ex):
+                ex.assume(z3.And(z3.UGE(column, 1), z3.ULT(column, 1 << 32)))
+                le = lexer_error(ex, prog, le_ty, report_value(ex, prog, rd_ty, line, column, off, csl, cso, None))
+                return ex.call(fn, [Ref(Cell(le)), StrRef([ord(c) for c in text])])
+            for r in chk.explore(run):
+                if r.kind != 'ok':
+                    if r.kind == 'panic':
+                        chk.violation('C17 marked panic', f"contextualize panics: {r.value[0]}", {'kind': 'kernel'})
+                    continue
+                out = chars_repr(r.value.chars)
+                marked = [ln for ln in out.split('\n') if 'FAILED AT THIS LINE' in ln]
+                src_line = text.replace('\r', '').split('\n')[line - 1].strip()
+                chk.res.obligations += 1
+                problem = None
+                if len(marked) != 1:
+                    problem = f"{len(marked)} lines are marked"
+                else:
+                    m = __import__('re').match(r'\s*(\d+) │\s*(.*?)\s*◀', marked[0])
+                    if not m:
+                        problem = 'marked line not understood: ' + marked[0][:80]
+                    elif int(m.group(1)) != line:
+                        problem = f"the marked line is numbered {m.group(1)}, the report says line {line}"
+                    elif m.group(2).strip() != src_line:
+                        problem = f"the marked text {m.group(2).strip()[:40]!r} is not source line {line} ({src_line[:40]!r})"
+                if problem is None:
+                    chk.res.discharged += 1
+                    continue
+                # native confirmation: corrupt the token at `off`
+                bad = text[:off] + '§' + text[off:]
+                runner = native.Runner()
+                try:
+                    o = runner.compile(bad)
+                finally:
+                    runner.close()
+                e = o.get('error', {})
+                ctxs = e.get('contextualize') or ''
+                rep = e.get('report') or {}
+                nm = [ln for ln in ctxs.split('\n') if 'FAILED AT THIS LINE' in ln]
+                nsrc = bad.replace('\r', '').split('\n')[rep.get('line', 1) - 1].strip() if rep else ''
+                nbad = (len(nm) != 1) or (nsrc.replace('§', '') not in nm[0].replace('§', ''))
+                long_ctx = 'long' if (text.index('}', off) - cso) > 300 else 'short'
+                if nbad:
+                    chk.violation(f"C17 marked line ({long_ctx} assignment)", f"{problem}; native: corrupting the token at offset {off} marks {[x.strip()[:60] for x in nm]} for reported line {rep.get('line')}", {'kind': 'text', 'text': bad})
+                else:
+                    chk.res.inconclusive.append(f"marked-line problem not reproduced natively: {problem}")
+        chk.sample({'marked_positions': len(starts), 'text_len': len(text)})
+
+
 def job_native(prog, chk, tier, seed):
     """concrete samples through the public API: offset within input, line = 1 + newlines before offset, three renderings agree, path reported"""
     import random, re, tempfile, os
@@ -304,6 +380,8 @@ def run_job(prog, job, tier, seed):
         job_display(prog, chk, tier)
     elif job == 'contextualize':
         job_contextualize(prog, chk, tier)
+    elif job == 'marked':
+        job_marked(prog, chk, tier)
     else:
         job_native(prog, chk, tier, seed)
     return chk.res
